@@ -1,5 +1,5 @@
 """Property -> rule instances (DESIGN section 4). Each entry is a function facts -> [RuleResult]."""
-from . import dim, atomic, tag, pair, canon, deleg, guard, table, wire, flow, sibling, algo_rules, rules5, rules6, rules7
+from . import dim, atomic, tag, pair, canon, deleg, guard, table, wire, flow, sibling, algo_rules, rules5, rules6, rules7, rules8
 
 ALGO_FILES = {
     "C09": ("src/algo/mod.rs",),
@@ -502,6 +502,31 @@ for _pids, _fn, _floor, _predf, _txt in _R7:
         if _fn is rules7.graph_rejects_holes:
             _rule = _serde_only(_rule)
         PROPS[_pid]["rules"].append(_rule)
+        if _pid != "C07":
+            PROPS[_pid]["decides"] += "; " + _txt
+
+# ---- round 8 (rules8)
+_R8 = [
+    (("C01",), rules8.index_twice_kinds, 1, None, "index_twice_mut bounds an index only by the length of its own kind"),
+    (("C04",), rules8.matrix_checked_position, 2, None, "MatrixGraph::to_edge_position answers Some only with both node indices below node_capacity"),
+    (("C07", "C09"), rules8.tarjan_component_count, 1, None, "TarjanScc stores componentcount after every component emission"),
+    (("C15",), rules8.matching_is_empty, 1, None, "Matching::is_empty derives from the edge count, not from the mate vector"),
+    (("C16", "C11", "C07"), rules8.fixpoint_store_flagged, {"C16": 1, "C11": 2, "C07": 3},
+     lambda pid: {"C16": (lambda f, s: "dominators" in f), "C11": (lambda f, s: "bellman_ford" in f), "C07": (lambda f, s: True)}[pid],
+     "inside a fixpoint sweep every table store implies the flag is raised"),
+    (("C20",), rules8.page_rank_whole_rows, 2, None, "page_rank's degree table and link test both range over all out-edges (no filtering adaptor)"),
+    (("C01", "C02", "C04", "C05"), rules8.index_arith, {"C01": 17, "C02": 12, "C04": 13, "C05": 12},
+     lambda pid: {"C01": (lambda f, s: f.startswith("graph_impl::") and "stable_graph" not in f), "C02": (lambda f, s: "stable_graph" in f),
+                  "C04": (lambda f, s: f.startswith("matrix_graph::") or "matrix_graph::" in f), "C05": (lambda f, s: "csr::" in f or "adj::" in f)}[pid],
+     "no index value is built from an unchecked sum or product (index arithmetic stays in usize)"),
+    (("C20",), rules8.dsatur_update_then_queue, 2, None, "dsatur re-queues a neighbour with its saturation read after the colour was inserted"),
+    (("C15",), rules8.join_flag_names_edge, 2, None, "find_join's walk ends only at a vertex flagged with the current edge's id"),
+]
+for _pids, _fn, _floor, _predf, _txt in _R8:
+    for _pid in _pids:
+        _fl = _floor[_pid] if isinstance(_floor, dict) else _floor
+        _pr = _predf(_pid) if _predf else (lambda f, s: True)
+        PROPS[_pid]["rules"].append(sub(_cached("r8." + _fn.__name__, _fn), _pr, _fl))
         if _pid != "C07":
             PROPS[_pid]["decides"] += "; " + _txt
 
